@@ -21,6 +21,7 @@ def run(ctx):
     ctx.rule("R05.2", "ENUM-HONOURED: each call of rtosc_match_number is the (negated) condition of a branch that fails the whole match")
     ctx.rule("R05.4", "RETRY-RESTORES: in rtosc_match_options every jump back to try the next alternative is preceded, since the nearest label, by the restore of the message cursor to its value at entry, with no later change of the cursor")
     ctx.rule("R05.5", "TYPE-MATCHER-CLONES: the three hand-written copies of the type-alternative matcher (dispatch.c, two in ports.cpp) are the same function up to renaming - a change to one copy only makes the accepted type strings depend on the lookup strategy")
+    ctx.rule("R05.6", "PATH-TABLE: rtosc_match_path (rtosc_match_options and rtosc_match_number evaluated in place) matches a probe address exactly when the statement says so - literal text, `#N` with a decimal index strictly below N, one of `{a,b}`, the address ending with the pattern's path or continuing after a trailing '/' - and returns the position where the pattern's type alternatives begin; 66 patterns x one-place variations of a matching address")
     ctx.rule("R05.3", "ENUM-SIBLING: rtosc_match_partial's enumerated case compares atoi(address) < atoi(pattern) strictly")
     fn = u.function("rtosc_match_number")
     ps = u.params(fn)
@@ -176,6 +177,33 @@ def run(ctx):
     from . import C04
     C04.matcher_clone_obligations(ctx, "R05.5")
     ctx.ob("R05.3", "rtosc_match_partial", ok, site=A.where(x), detail={"comparison": A.src(x)}, what="rtosc_match_partial bounds an enumeration with `%s`" % A.src(x))
+
+    # ---- R05.6: the path matcher evaluated against the statement, pattern by pattern
+    from ..rules import pathmatch as PM
+    fmp = u.function("rtosc_match_path")
+    npairs = 0
+    for pat in PM.patterns():
+        bad = []
+        n_here = 0
+        _, _, path_len = PM.parse(pat)
+        for adr in PM.addresses(pat):
+            want, unamb = PM.reference(pat, adr)
+            if not unamb:
+                continue
+            try:
+                got = PM.run_match_path(u, pat, adr)
+            except FD.Unknown as ex:
+                raise AnalysisBroken("R05.6: rtosc_match_path not evaluable on (%r, %r): %s" % (pat, adr, ex))
+            n_here += 1
+            if (got is not None) != want:
+                bad.append({"address": adr, "matches": got is not None, "statement_says": want})
+            elif got is not None and got != path_len:
+                bad.append({"address": adr, "returned_pattern_offset": got, "types_begin_at": path_len})
+        npairs += n_here
+        ctx.ob("R05.6", "pattern \"%s\"" % pat, not bad, site=A.where(fmp), detail={"addresses": n_here, "mismatches": bad[:6]},
+               key="R05.6:%s" % pat,
+               what="rtosc_match_path on pattern \"%s\": %s" % (pat, bad[:3]))
+    ctx.require(npairs >= 1000, "R05.6: only %d (pattern, address) pairs evaluated" % npairs)
 
 
 def _contains(root, node):
